@@ -306,7 +306,10 @@ func (sc *serverConn) readLoop() (err error) {
 	var expectContinuation uint32
 
 	for err == nil {
-		fr, err = ReadFrameFromWithSize(sc.br, sc.clientS.frameSize)
+		// The limit on what we accept is the one we advertised, not the one
+		// the client did (which is zero, no limit at all, until its first
+		// SETTINGS frame arrives).
+		fr, err = ReadFrameFromWithSize(sc.br, sc.st.frameSize)
 		if err != nil {
 			if errors.Is(err, ErrUnknownFrameType) {
 				// Unknown frame types are discarded, not rejected (RFC 7540
